@@ -94,6 +94,17 @@ Definition component_connect (secret : str) (e : env) : result :=
    the receive loop runs *)
 Definition probe_routed (r : result) : bool := r_recv r.
 
+(* ---- several connections of one Component value.  Resume builds a new transport and
+   computes the digest from the current stream id and the secret only; nothing of an
+   earlier connection enters (no field of Component is read by handshake but Secret).
+   The k-th digest / outcome is therefore that of a first connection with the k-th
+   id / environment. ---- *)
+Definition handshakes (secret : str) (ids : list str) : list str :=
+  map (fun id => handshake id secret) ids.
+
+Definition component_sessions (secret : str) (es : list env) : list result :=
+  map (component_connect secret) es.
+
 (* ---- the reading side (the server): the character data between the two tags ---- *)
 Fixpoint strip_prefix (p s : str) : option str :=
   match p with
